@@ -35,6 +35,21 @@ def check_case(case):
         spec = spec_from_forest(case["f"], case["pal"], case["pol"], case["srs"])
         spec = with_phases(spec, PH2, {case["who"]: case["pc"]})
         phys.solve_and_check(r, spec, ("C02",), case["ta"])
+    elif case["fam"] == "c05edit":   # the edit histories of C05 (rename / re-rail / hand-over / delete an input), judged by the energy book-keeping
+        from . import c05
+        r = Res()
+        old = c05.WANT
+        c05.WANT = ("C02",)
+        try:
+            r5 = c05.check_case(case["case"])
+        finally:
+            c05.WANT = old
+        for sig, det in r5.viol:
+            if len(sig) > 1 and sig[1].startswith("C02."):
+                r.v(("C02.after-edit",) + tuple(sig[1:]), det)
+            elif sig[0] == "C05.after-edit-solve-raises":
+                r.v(("C02.after-edit", "solve-raises") + tuple(sig[1:]), det)
+        r.stats.update(r5.stats)
     elif case["fam"] == "orderstruct":
         # two-source structures of C07 (mux inputs up to two elements away from their source), reached through an edit history with an analysis in the middle
         from . import c07
@@ -137,6 +152,10 @@ def gen_cases(tier):
                     if str(f1).count("MX") + str(f2).count("MX") > 1:
                         continue
                     yield dict(fam="two", f=f1, f2=f2, pal=pal, pol=1, srs=SRS, n=n1 + 1, ta=-40.0)
+        from . import c05
+        for c5 in c05.gen_edits(tier, pal):
+            if c5.get("handover") or c5.get("rename"):
+                yield dict(fam="c05edit", case=c5, pal=pal, pol=1, srs=0.0, n=len(c5["inputs"]), ta=25.0)
         from . import c07
         for st in c07.structures("quick"):
             if "M" in st:
